@@ -608,3 +608,45 @@ N('ds-formulas-rewritten', 'C08',
    (D, 'X2[i] -= tmp * u2;', 'X2[i] -= u2 * tmp;'),
    (D, 'const Scalar dot2 = Scalar(2) * (x[0] * u0', 'const Scalar dot2 = (Scalar(2) * x[0] * u0 + Scalar(2) * x[1] * u1 + (nr_is_2 ? 0 : Scalar(2) * (x[2] * u2))) + Scalar(0) * (x[0] * u0')],
   'algebraically identical')
+
+# ----------------------------------------------------------------------------- C13 dense-kernel contracts
+S_ = 'LinAlg/UpperHessenbergSchur.h'
+E_ = 'LinAlg/UpperHessenbergEigen.h'
+T_ = 'LinAlg/TridiagEigen.h'
+M('schur-split-zeroes-row-minus-one', 'C13', 'dense-kernel-index-contracts',
+  [(S_, '''        if (iu > 1)
+            m_T.coeffRef(iu - 1, iu - 2) = Scalar(0);''', '''        if (iu > 0)
+            m_T.coeffRef(iu - 1, iu - 2) = Scalar(0);''')], 'iu == 1: column index -1')
+M('schur-francis-start-one-too-high', 'C13', 'dense-kernel-index-contracts',
+  [(S_, 'for (im = iu - 2; im >= il; --im)', 'for (im = iu - 1; im >= il; --im)')], 'reads T(im + 2, im + 1) with im + 2 = iu + 1')
+M('schur-householder-right-window-too-tall', 'C13', 'dense-kernel-index-contracts',
+  [(S_, 'apply_householder_right_simd(ess, tau, &m_T.coeffRef(0, k), (std::min)(iu, k + 3) + 1, m_n);', 'apply_householder_right_simd(ess, tau, &m_T.coeffRef(0, k), (std::min)(iu, k + 3) + 2, m_n);')], 'rows 0..iu+1')
+M('schur-cleanup-loop-low-start', 'C13', 'dense-kernel-index-contracts',
+  [(S_, 'for (Index i = im + 2; i <= iu; ++i)', 'for (Index i = im + 1; i <= iu; ++i)')], 'T(i, i - 2) with i - 2 = im - 1 may be -1')
+M('schur-find-subdiag-may-return-negative', 'C13', 'dense-kernel-index-contracts',
+  [(S_, 'while (res > 0)\n', 'while (res >= 0)\n')], 'reads T(res - 1, ..) at res = 0')
+M('eigen-pair-at-last-column', 'C13', 'dense-kernel-index-contracts',
+  [(E_, 'if (Eigen::numext::imag(m_eivalues.coeff(j)) == Scalar(0) || j + 1 == n)', 'if (Eigen::numext::imag(m_eivalues.coeff(j)) == Scalar(0))')], 'column j + 1 = n read when the last eigenvalue has a non-zero imaginary part')
+M('eigen-values-loop-last-block', 'C13', 'dense-kernel-index-contracts',
+  [(E_, 'if (i == m_n - 1 || m_matT.coeff(i + 1, i) == Scalar(0))', 'if (m_matT.coeff(i + 1, i) == Scalar(0) || i == m_n - 1)')], 'reads T(n, n - 1) before testing for the last row')
+M('tridiag-subdiag-scan-past-end', 'C13', 'dense-kernel-index-contracts',
+  [(T_, 'while (end > 0 && subdiag[end - 1] == Scalar(0))', 'while (end >= 0 && subdiag[end - 1] == Scalar(0))')])
+M('tridiag-qr-step-bulge-guard', 'C13', 'dense-kernel-index-contracts',
+  [(T_, 'if (k < end - 1)\n', 'if (k < end)\n')], 'subdiag[k + 1] with k + 1 = end = n - 1: one past the sub-diagonal')
+M('tridiag-subdiag-sized-n-minus-2', 'C13', 'dense-kernel-index-contracts',
+  [(T_, 'm_sub_diag.resize(m_n - 1);', 'm_sub_diag.resize(m_n - 2);')], 'declared extent no longer established')
+N('schur-guards-rewritten', 'C13',
+  [(S_, '''        if (iu > 1)
+            m_T.coeffRef(iu - 1, iu - 2) = Scalar(0);''', '''        if (iu >= 2)
+            m_T.coeffRef(iu - 1, iu - 2) = Scalar(0);'''),
+   (S_, 'for (Index i = im + 2; i <= iu; ++i)', 'for (Index i = im + 2; i < iu + 1; ++i)')], 'same ranges')
+
+N('svd-derived-factor-multiplied-by-reciprocal', 'C16',
+  [('contrib/PartialSVDSolver.h', "return m_mat * (m_evecs.leftCols(nu).array().rowwise() / m_eigs->eigenvalues().head(nu).transpose().array().sqrt()).matrix();",
+    "return m_mat * (m_evecs.leftCols(nu).array().rowwise() * m_eigs->eigenvalues().head(nu).transpose().array().sqrt().inverse()).matrix();"),
+   ('contrib/PartialSVDSolver.h', "Vector svals = m_eigs->eigenvalues().cwiseSqrt();", "Vector svals = m_eigs->eigenvalues().cwiseMax(Scalar(0)).cwiseSqrt();")],
+  'multiplication by 1/sqrt(lambda) and a clamp at zero before the square root: same values')
+M('svd-derived-factor-relative-floor-missing-sqrt', 'C16', 'shape-predicates-agree',
+  [('contrib/PartialSVDSolver.h', "return m_mat.transpose() * (m_evecs.leftCols(nv).array().rowwise() / m_eigs->eigenvalues().head(nv).transpose().array().sqrt()).matrix();",
+    "return m_mat.transpose() * (m_evecs.leftCols(nv).array().rowwise() / m_eigs->eigenvalues().head(nv).transpose().array()).matrix();")],
+  'V scaled by 1/lambda instead of 1/sigma')
